@@ -30,6 +30,6 @@ func TestCheck(t *testing.T) {
 			"needed raft data = entries above max(snapshot index, MaybeCompact target); a regressed HardState after a removal is counted (label obs:hardstate-regressed-after-segment-removal) but not judged, because the statement names log entries only",
 		},
 	}
-	pbt.Add(s, &pbt.Spec[Case]{Name: "cleanup", Gen: genCase, Run: runCase, Quick: 320, Thorough: 5000, Shards: 8})
+	pbt.Add(s, &pbt.Spec[Case]{Name: "cleanup", Gen: genCase, Run: runCase, Quick: 320, Thorough: 4000, Shards: 8})
 	s.Main(t)
 }
